@@ -17,6 +17,16 @@ import (
 // that lock too.
 func ruleL7(r *Report) { ruleL7sel(r, nil, true) }
 
+// ruleL7mode: mode 2 emits the writer-side obligations and, of the reader side, only the readers that
+// hold a lock which some but not all writers hold (the class that is no known finding).
+func ruleL7mode(r *Report, sel func(field string) bool, mode int) {
+	l7HoldingOnly = mode == 2
+	defer func() { l7HoldingOnly = false }()
+	ruleL7sel(r, sel, mode != 0)
+}
+
+var l7HoldingOnly bool
+
 // ruleL7sel: sel restricts the fields; withRead=false emits only the writer-side obligations.
 func ruleL7sel(r *Report, sel func(field string) bool, withRead bool) {
 	L := r.Shared.Lockset()
@@ -171,6 +181,9 @@ func ruleL7sel(r *Report, sel func(field string) bool, withRead bool) {
 			if !ok && bad == nil {
 				bad = rd
 			}
+		}
+		if l7HoldingOnly {
+			continue
 		}
 		if bad != nil {
 			o := hr.Bad(n, r.P.InstrPos(bad.ins), fmt.Sprintf("read in %s without any of the locks {%s} under which the header is replaced: a reader of one block races with a writer of another block that grows or appends", bad.fn, common.key()))
